@@ -247,7 +247,7 @@ func init() {
 		notDecided:  []string{"crossing-history logic of executeInternal (firstCross/startLocs bookkeeping)", "checkEdges / tidyEdgePair re-joining (tidyEdgePair tests horizontal overlap on vertical edges: only region-equivalent differences could be produced)", "1-unit rounding of intersection points"},
 		rules: []func(*Ctx){
 			ruleRectMirror("C06.mirror"),
-			ruleSegIntersectMirror("C06.mirror.seg"),
+			ruleSegIntersectMirrorSem("C06.mirror.seg"),
 			ruleInsideArmMirror("C06.mirror.inside"),
 			ruleRetireBeforeRelabel("C06.retire"),
 			ruleRectSkipOnly("C06.skip-only", "(RectClip64).Execute", []string{"(RectClip64).executeInternal"}),
